@@ -70,6 +70,40 @@ package memtable
 
 // Entries capture key and value at call time; a value entry never carries a nil value (nil is the deletion marker).
 //@ func newEntry
+//@   modifies nothing
 //@   ensures[C01,C18] result != nil && fresh(result) && result.valueType == valueType && result.seqNum == seqNum
 //@   ensures[C01,C18,C03] bstr(result.key) == bstr(key) && bstr(result.value) == bstr(value) && (len(key) > 0 ==> fresh(result.key)) && (len(value) > 0 ==> fresh(result.value))
 //@   ensures[C01,C18] valueType == TypeValue ==> result.value != nil
+
+// ---- C01/C18: how an insert changes the view: the entry with the highest sequence number wins, ties go to the
+// later insert; other keys are untouched.  seq[k] = sequence number of the winning entry of k.
+//@ ghost field (*SkipList) seq map[bstr]uint64
+//@ predicate Wins(s *SkipList, k bstr, n uint64) = !s.has[k] || n >= s.seq[k]
+//@ func (*SkipList).Insert
+//@   trusted assumed view-level contract (goal of C18: proof from the skiplist representation invariant)
+//@   requires e != nil
+//@   modifies s.has, s.del, s.val, s.seq, s.size, s.maxHeight
+//@   ensures s.has == upd(old(s.has), bstr(e.key), true)
+//@   ensures old(Wins(s, bstr(e.key), e.seqNum)) ==> s.del == upd(old(s.del), bstr(e.key), e.valueType == TypeDeletion) && s.val == upd(old(s.val), bstr(e.key), bstr(e.value)) && s.seq == upd(old(s.seq), bstr(e.key), e.seqNum)
+//@   ensures !old(Wins(s, bstr(e.key), e.seqNum)) ==> s.del == old(s.del) && s.val == old(s.val) && s.seq == old(s.seq)
+//@ func NewSkipList
+//@   trusted assumed view-level contract (goal of C18)
+//@   ensures result != nil && fresh(result) && (forall k bstr :: !result.has[k])
+
+// A mutable table takes the insert, an immutable table never changes.
+//@ func (*MemTable).Put
+//@   requires m.skipList != nil && lockstate(m.mu) == 0
+//@   modifies m.skipList.has, m.skipList.del, m.skipList.val, m.skipList.seq, m.skipList.size, m.skipList.maxHeight, m.nextSeqNum
+//@   ensures[C01,C18] old(m.immutable) ==> m.skipList.has == old(m.skipList.has) && m.skipList.del == old(m.skipList.del) && m.skipList.val == old(m.skipList.val) && m.skipList.seq == old(m.skipList.seq)
+//@   ensures[C01,C18] !old(m.immutable) ==> MTHas(m, bstr(key))
+//@   ensures[C01,C18] !old(m.immutable) && old(Wins(m.skipList, bstr(key), seqNum)) ==> !MTDel(m, bstr(key)) && MTVal(m, bstr(key)) == bstr(value) && m.skipList.seq[bstr(key)] == seqNum
+//@   ensures[C01,C18] forall k bstr :: k != bstr(key) ==> m.skipList.has[k] == old(m.skipList.has[k]) && m.skipList.del[k] == old(m.skipList.del[k]) && m.skipList.val[k] == old(m.skipList.val[k]) && m.skipList.seq[k] == old(m.skipList.seq[k])
+//@   ensures[C18] m.immutable == old(m.immutable)
+//@ func (*MemTable).Delete
+//@   requires m.skipList != nil && lockstate(m.mu) == 0
+//@   modifies m.skipList.has, m.skipList.del, m.skipList.val, m.skipList.seq, m.skipList.size, m.skipList.maxHeight, m.nextSeqNum
+//@   ensures[C01,C18] old(m.immutable) ==> m.skipList.has == old(m.skipList.has) && m.skipList.del == old(m.skipList.del) && m.skipList.val == old(m.skipList.val) && m.skipList.seq == old(m.skipList.seq)
+//@   ensures[C01,C18] !old(m.immutable) ==> MTHas(m, bstr(key))
+//@   ensures[C01,C18] !old(m.immutable) && old(Wins(m.skipList, bstr(key), seqNum)) ==> MTDel(m, bstr(key)) && m.skipList.seq[bstr(key)] == seqNum
+//@   ensures[C01,C18] forall k bstr :: k != bstr(key) ==> m.skipList.has[k] == old(m.skipList.has[k]) && m.skipList.del[k] == old(m.skipList.del[k]) && m.skipList.val[k] == old(m.skipList.val[k]) && m.skipList.seq[k] == old(m.skipList.seq[k])
+//@   ensures[C18] m.immutable == old(m.immutable)
